@@ -1782,6 +1782,12 @@ class Entity(Instance):
             else:
                 raise AssertionError("invalid direction")
 
+            # array and enumeration types are declared inside of the architecture,
+            # they are not visible in the port clause of the entity
+            assert not isinstance(
+                obj, (Array, cohdl_enum.Enum, cohdl_enum.DynamicEnum)
+            ), f"port '{name}': array and enum types are not supported as port types"
+
             ret.append(f"{name} : {dir_str} {self._scope.format_type(obj)};")
 
         if len(ret) != 0:
